@@ -277,7 +277,7 @@ func oneInput(data []byte) (res result) {
 	return
 }
 
-var byteAlpha = []string{"a", "(", ")", "\"", "`", "'", "/", "*", "\n", "\r", " ", "\\", "\xff", "é", ","}
+var byteAlpha = []string{"a", "(", ")", "\"", "`", "'", "/", "*", "\n", "\r", " ", "\\", "\xff", "é", ",", "\ufffd"}
 var atomAlpha = []string{"a", "b", "(", ")", "[", "]", ",", "\"s t\"", "`r`", "//c", "// d ", "\n", "\r\n", " ", "\t", "a//",
 	"module", "go", "require", "retract", "1.21", "a.com/m", "v1.0.0", "=>", "/*", "\"unterminated", "use", "./x"}
 
